@@ -215,15 +215,16 @@ def fam_bisect(rng, quick, kinds=('ps', 'psp')):
             out.append(s)
     return out, {f: C.FILES[f] for f in files}
 
-def bisect_fidelity(res, extra_viol):
-    """second validation of the traces that carry page tables: VFSeek_Trace compares the callback seeks of every sample / page seek with the model of the search"""
+def model_fidelity(res, module):
+    """second validation of the traces that carry page tables: <module> (VFSeek_Trace / VFOpen_Trace) runs the implementation-shaped model on the real
+       page table and compares what it predicts (callback seeks, link table) with what the call did"""
     import glob
     tps = [tp for tp in glob.glob(os.path.join(res['rundir'], 'b*.ndjson')) if any('"Pages"' in l for l in open(tp))]
-    def val(tp): return tp, vlib.validate_trace('VFSeek_Trace.tla', 'VFSeek_Trace.cfg', tp, timeout=900)
+    def val(tp): return tp, vlib.validate_trace(module + '.tla', module + '.cfg', tp, timeout=1500)
     with ThreadPoolExecutor(max_workers=8) as ex: rs = list(ex.map(val, tps))
-    out = dict(traces=len(tps), calls_compared=0, probes_not_as_modelled=0, model_submits_other_page=0, states=0, examples=[])
+    out = dict(traces=len(tps), calls_compared=0, probes_not_as_modelled=0, model_submits_other_page=0, link_table_not_as_modelled=0, states=0, examples=[])
     for tp, r in rs:
-        if r['error'] or not r['ok']: res['infra'].append(f'TLC problem (VFSeek_Trace) on {tp}: ' + r['out'][-600:]); continue
+        if r['error'] or not r['ok']: res['infra'].append(f'TLC problem ({module}) on {tp}: ' + r['out'][-600:]); continue
         out['states'] += r['distinct']
         out['calls_compared'] += sum(int(x) for x in re.findall(r'COMPARED (\d+)', r['out']))
         evs = vlib.read_ndjson(tp)
@@ -232,11 +233,25 @@ def bisect_fidelity(res, extra_viol):
             except Exception: continue
             if 'ProbesAsModelled' in v['rules']: out['probes_not_as_modelled'] += 1
             if 'ModelSubmitsRightPage' in v['rules']: out['model_submits_other_page'] += 1
+            if 'LinkTableAsModelled' in v['rules']: out['link_table_not_as_modelled'] += 1
             if len(out['examples']) < 5:
-                e = evs[v['line'] - 1]; out['examples'].append(dict(scn=v['scn'], rules=v['rules'], pos=e.get('pos'), off0=e.get('off0'), probes=e.get('probes')))
-    if out['probes_not_as_modelled'] or out['model_submits_other_page']:
-        vlib.log(f"[seek model] MODEL-DRIFT notes: probes {out['probes_not_as_modelled']}, page {out['model_submits_other_page']} of {out['calls_compared']} calls; first: {out['examples'][:1]}")
+                e = evs[v['line'] - 1]; out['examples'].append(dict(scn=v['scn'], rules=v['rules'], pos=e.get('pos'), off0=e.get('off0'), probes=e.get('probes'), tab=e.get('tab')))
+    if out['probes_not_as_modelled'] or out['model_submits_other_page'] or out['link_table_not_as_modelled']:
+        vlib.log(f"[{module}] MODEL-DRIFT notes: probes {out['probes_not_as_modelled']}, page {out['model_submits_other_page']}, link table {out['link_table_not_as_modelled']} of {out['calls_compared']} calls; first: {out['examples'][:1]}")
     return out
+def bisect_fidelity(res, extra_viol): return model_fidelity(res, 'VFSeek_Trace')
+
+def open_model_check(pid, quick):
+    """VFOpen_MC: the link discovery of a seekable open over every chain of catalogue shapes"""
+    out = dict(states=0, transitions=0, configs={}); viol = []
+    for c in (['VFOpen_MC.cfg', 'VFOpen_MC_hdronly.cfg'] if quick else ['VFOpen_MC.cfg', 'VFOpen_MC_hdronly.cfg', 'VFOpen_MC_3.cfg']):
+        r = vlib.run_tlc('VFOpen_MC.tla', c, workers=4 if quick else 14, timeout=300 if quick else 3000)
+        out['configs'][c] = dict(ok=bool(r['ok']), states=r['distinct'], wall_s=round(r['wall'], 1)); out['states'] += r['distinct']; out['transitions'] += r['generated']
+        if not r['ok']:
+            os.makedirs(vlib.REPLAY, exist_ok=True); p = os.path.join(vlib.REPLAY, f'{pid}-design-{c}.txt'); o = r['out']; i = o.find('Error:'); open(p, 'w').write(o[max(0, i):i + 4000])
+            if r['violated']: viol.append(dict(replay=p, what=f'design-level invariant of VFOpen_MC violated under {c}: the link discovery as modelled from the current tree builds a wrong link table'))
+            else: raise SystemExit(f'TLC failed on {c}: ' + o[-800:])
+    return out, viol
 
 def seek_model_check(pid, quick):
     """VFSeek_MC: the repaired search over every small layout; and the three pinned rules, each of which TLC must refute (the model can tell them apart)"""
@@ -319,16 +334,23 @@ def check_c09(pid, tier, seed, replay=None):
         scs.append(fam_linear(key, name=f'chain{i}-{k}links', lens=(4096,) if i%3 else (1,333,100000)))
         # the same file through the integer reader (the packing of a call that crosses into a link with another channel count)
         if i % 2 == 0: scs.append(fam_linear(key, name=f'chain{i}-{k}links-int', lens=(4096,) if i%3 else (7,333,100000), intread=rng.choice([(2,1,0),(1,0,0),(2,0,1)])))
-    for f in ['B','C','D','E','I','J','N','P','Q','V','X','Y']:
+    for f in ['B','C','D','E','I','J','N','P','Q','V','X','Y','ZC','ZD','ZF']:
         scs.append(fam_linear(f, name=f'chain-{f}'))
         scs.append(fam_linear(f, name=f'chain-{f}-int', intread=(2,1,0)))
     # file ids collide across scenarios only if they share a script: pin each generated file to its own id per bucket by unique ids modulo 40
-    res = run_batch(pid, tier, scs, bindir, nproc=16)
+    # page table and callback seeks of every open are logged for VFOpen_Trace (the model of the link discovery run on the real page table)
+    for s in scs:
+        if not s.name.endswith('-int'): s.lines[0:0] = [f'pages {fid(s.files[0])}', 'sklog 1']
+    with ThreadPoolExecutor(max_workers=2) as ex0:
+        fmc = ex0.submit(open_model_check, pid, quick)
+        res = run_batch(pid, tier, scs, bindir, nproc=16)
+        mc, extra_viol = fmc.result()
+    openmodel = model_fidelity(res, 'VFOpen_Trace'); openmodel['design'] = mc
     rules = OPEN_RULES | READ_RULES | SAFETY_RULES | CLEAR_RULES
     def nt(s, evs): return any(e.get('e')=='Open' and e.get('ret')==0 for e in evs) and any(e.get('e') in ('ReadF','ReadI') and e.get('ret',0)>0 for e in evs)
     return finish(pid, tier, seed, 'model_checking', scs, res, rules, t0,
       'scenario = seekable open of a generated chained file (k in 1..6, occasionally 40, links drawn from a catalogue incl. 0-sample, 1-sample and single-page links, random packets-per-page layouts, foreign multiplexed streams, non-zero initial granule positions) followed by link-table queries and an uninterrupted read to EOF, through ov_read_float and through the integer reader ov_read; non-trivial = open succeeded and audio was delivered; distinct = distinct file layout + script',
-      nt, COMMON_ASSUME, extra_cov=dict(generated_files=len(extra_files)))
+      nt, COMMON_ASSUME, extra_cov=dict(generated_files=len(extra_files), open_model=openmodel, design_model=dict(states=mc['states'], transitions=mc['transitions'])), extra_viol=extra_viol)
 
 # ---------------------------------------------------------------- C10
 def check_c10(pid, tier, seed, replay=None):
